@@ -70,6 +70,10 @@ class LinkState(Attribute):
         self._packed = packed
         self._ls_attrs: list[BaseLS] | None = None
 
+    def pack_attribute(self, negotiated: Any = None) -> bytes:
+        """The attribute keeps the bytes it was decoded from: it is encoded as it was received."""
+        return self._attribute(bytes(self._packed))
+
     @property
     def ls_attrs(self) -> list[BaseLS]:
         """The TLVs this attribute holds, parsed once by the decoder.
